@@ -72,7 +72,7 @@ pub(crate) enum JumpRecordAction {
 pub(crate) enum JumpRecordKind {
     Break,
     Continue,
-    Return { return_value_on_stack: bool },
+    Return { return_value_in_register: bool },
 }
 
 /// This represents a local control flow handling. See [`JumpRecordKind`] for types.
@@ -136,13 +136,11 @@ impl JumpRecord {
             JumpRecordKind::Break => compiler.patch_jump(self.label),
             JumpRecordKind::Continue => compiler.patch_jump_with_target(self.label, start_address),
             JumpRecordKind::Return {
-                return_value_on_stack,
+                return_value_in_register,
             } => {
-                if return_value_on_stack {
-                    let value = compiler.register_allocator.alloc();
-                    compiler.pop_into_register(&value);
-                    compiler.bytecode.emit_set_accumulator(value.variable());
-                    compiler.register_allocator.dealloc(value);
+                if return_value_in_register {
+                    let value = compiler.return_value_register();
+                    compiler.bytecode.emit_set_accumulator(value);
                 }
 
                 match (compiler.is_async(), compiler.is_generator()) {
